@@ -123,6 +123,10 @@ CLAIMED = {
             "a manifest loaded from disk is re-rooted at the opened directory before it is published; SegmentPaths are built only by "
             "directory::segment_paths as root.join(name-with-id); every root handed to the path builders derives from the opened "
             "directory", "5/C28"),
+    "C30": ("must-order of the page-cutting steps, key-function agreement between sort and filter, operator strictness, provenance of after_key",
+            "the page-cutting skeleton of finalize_composite: sort, then filter by `after`, then has_more = (len > size), then cut; sort "
+            "and filter build keys with the same function; the filter is strictly `>` and has_more strictly `>`; after_key is the "
+            "last returned bucket's key exactly under has_more. Completeness of the buckets across pages is NOT decided", "5/C30"),
 }
 
 NA = {
@@ -130,7 +134,6 @@ NA = {
     "C22": "determinism and doc-frequency equality of suggestions depend on dictionary contents and a runtime scan cap",
     "C27": "quantifies over orderings of browser tasks / IndexedDB completions and the module is cfg(target_arch=\"wasm32\"): no wasm32 target is installed, so the code cannot be type-checked here",
     "C29": "similarity values, blending and nearest-neighbour exactness are numerical / algorithmic; the feature is outside the pinned build",
-    "C30": "completeness and order of composite pages are runtime ordering properties",
 }
 
 
